@@ -97,6 +97,8 @@ type FnCtx struct {
 	notes     []string
 	unrolled  int
 	boundedIters int
+	marks     map[string]*State // mark NAME "text": state before that line
+	matched   map[*Clause]bool  // assert_at / check_at / mark clauses whose line was found
 	srcCache  map[string][]string
 	ghost     map[string]Val
 	dry       int
@@ -384,6 +386,14 @@ func (c *FnCtx) epochGet(ep *epoch, key string) string {
 		}
 		c.emit(fmt.Sprintf("(define-fun %s () %s %s)", name, c.heapSortOf(key), term))
 		t = name
+	case ep.prev != nil && strings.HasPrefix(key, "G_"):
+		// ghost fields are specification state: code without a contract cannot
+		// change them (contracts that do say so with "modifies ghost(...)")
+		pv, ok := ep.prev.heap[key]
+		if !ok {
+			pv = c.epochGet(ep.prev.ep, key)
+		}
+		t = pv
 	case ep.prev != nil:
 		// havoc-all epoch that keeps the rows of non-escaped locals
 		c.emit(fmt.Sprintf("(declare-const %s$h %s)", name, c.heapSortOf(key)))
@@ -1088,6 +1098,18 @@ func (c *FnCtx) checkAsserts(fr *frame, b *ssa.BasicBlock, st *State, in ssa.Ins
 	text := c.srcLine(p)
 	for _, a := range fr.con.Asserts {
 		if !strings.Contains(text, a.Name) {
+			continue
+		}
+		if c.matched == nil {
+			c.matched = map[*Clause]bool{}
+		}
+		c.matched[a] = true
+		if a.Kind == "mark" {
+			// mark NAME "text": remember the state just before this line; at(NAME, e) reads it
+			if c.marks == nil {
+				c.marks = map[string]*State{}
+			}
+			c.marks[a.Text] = st.clone()
 			continue
 		}
 		var pkg *types.Package
